@@ -300,7 +300,10 @@ func (c *c06) codeFlow(ch *kernel.Chooser) string {
 	w := c.w
 	client := c.pickClient(ch)
 	scopes := append([]string{oidc.ScopeOpenID}, ch.Subset([]string{oidc.ScopeProfile, oidc.ScopeEmail, oidc.ScopePhone, oidc.ScopeAddress, oidc.ScopeOfflineAccess})...)
-	user := ch.Pick("alice", "bob")
+	user := ch.Pick("alice", "bob", "alice", "bob", "dave")
+	if user == "dave" {
+		c.o.Probe("subject-with-characters-that-escaping-rewrites")
+	}
 	nonce := fmt.Sprintf("nonce-%d", c.step)
 	if ch.Bool(1, 5) {
 		nonce = "n o+n/c=e&%#"
